@@ -184,6 +184,15 @@ DeleteAt(ts, i) ==
     ELSE IF ts[i].k = "o" THEN SubSeq(ts, 1, i - 1) \o SubSeq(ts, CloseOf(ts, i, 0) + 1, Len(ts))
     ELSE ts
 
+(* content = <element>: the whole content of an inline element (i > 0: its start tag is token i) or of the paragraph     *)
+(* itself (i = 0) is marked: a start mark before everything inside, an end mark after everything inside (for a non-empty *)
+(* element; Element.insert(start=True) moves the leading text behind the new mark)                                       *)
+MarkElement(ts, i) ==
+    IF i = 0 THEN <<E("bm", 0)>> \o ts \o <<E("bm", 0)>>
+    ELSE IF ts[i].k # "o" THEN ts
+    ELSE LET j == CloseOf(ts, i, 0)
+         IN SubSeq(ts, 1, i) \o <<E("bm", 0)>> \o SubSeq(ts, i + 1, j - 1) \o <<E("bm", 0)>> \o SubSeq(ts, j, Len(ts))
+
 (* strip_tags called ON an inline element (span.remove_spans(), link.strip_tags(...)): when the element's own tag  *)
 (* is stripped the call returns a NEW paragraph holding what was inside (nested tags of that kind stripped too)     *)
 (* followed by the element's tail, and leaves the paragraph alone; otherwise it works in place, inside the element  *)
@@ -237,6 +246,7 @@ ApplyOp(ts, o) ==
       [] o.op = "mark_position"   -> MarkAtPosition(ts, o.pos)
       [] o.op = "mark_range"      -> MarkRange(ts, o.a, o.b)
       [] o.op = "mark_content"    -> MarkContent(ts, o.p, o.nth)
+      [] o.op = "mark_element"    -> MarkElement(ts, o.i)
       [] o.op = "strip_tags"      -> StripTags(ts, o.tag, <<>>)
       [] o.op = "delete"          -> DeleteAt(ts, o.i)
       [] o.op = "strip_self"      -> StripSelf(ts, o.i, o.tag, TRUE)
